@@ -1,13 +1,3 @@
-// ---------------- assumed std specs (discharged by Kani in thorough mode)
-pub assume_specification [i64::wrapping_neg] (a: i64) -> (r: i64)
-    ensures r == (if a == i64::MIN { i64::MIN } else { (-a) as i64 });
-pub assume_specification [i64::wrapping_div] (a: i64, b: i64) -> (r: i64)
-    requires b != 0
-    ensures r == (if a == i64::MIN && b == -1 { i64::MIN } else { (a / b) as i64 });
-pub assume_specification [i64::wrapping_rem] (a: i64, b: i64) -> (r: i64)
-    requires b != 0
-    ensures r == (if b == -1 { 0i64 } else { (a % b) as i64 });
-
 // ---------------- context stubs
 pub struct St { pub x: int }
 #[verifier::external_body]
@@ -66,8 +56,8 @@ pub open spec fn bin_sem(op: ast::BinaryOperator, l: i64, r: i64) -> Result<i64,
     match op {
         ast::BinaryOperator::Power => if r >= 0 { Ok(pow_spec(l, r as u64)) } else { Err(EvalError::NegativeExponent) },
         ast::BinaryOperator::Multiply => Ok(l.wrapping_mul(r)),
-        ast::BinaryOperator::Divide => if r == 0 { Err(EvalError::DivideByZero) } else if l == i64::MIN && r == -1 { Ok(i64::MIN) } else { Ok((l / r) as i64) },
-        ast::BinaryOperator::Modulo => if r == 0 { Err(EvalError::DivideByZero) } else if r == -1 { Ok(0i64) } else { Ok((l % r) as i64) },
+        ast::BinaryOperator::Divide => if r == 0 { Err(EvalError::DivideByZero) } else if l == i64::MIN && r == -1 { Ok(i64::MIN) } else { Ok(cdiv(l as int, r as int) as i64) },
+        ast::BinaryOperator::Modulo => if r == 0 { Err(EvalError::DivideByZero) } else if r == -1 { Ok(0i64) } else { Ok(crem(l as int, r as int) as i64) },
         ast::BinaryOperator::Comma => Ok(r),
         ast::BinaryOperator::Add => Ok(l.wrapping_add(r)),
         ast::BinaryOperator::Subtract => Ok(l.wrapping_sub(r)),
